@@ -128,12 +128,17 @@ def run(ck):
     ck.rng.shuffle(ops); ck.rng.shuffle(foreign)
     nq = (6000, 12000) if ck.thorough else (900, 900)
     ops, foreign = ops[:nq[0]], foreign[:nq[1]]
+    # the generators spell bit strings with letters (o = 0, i = 1: Dict_Pool!Lt), and Dict_Gen names each key of a behaviour
+    # once and refers to it by position: spell both out for the replayer
+    tr = str.maketrans("oi", "01")
     for v in ops:
-        # Dict_Gen names each key of a behaviour once and refers to it by position: spell the references out for the replayer
-        ks = v.pop("keys")
+        ks = [k.translate(tr) for k in v.pop("keys")]
         for st in v["steps"]:
             st["k"] = ks[st["k"] - 1] if st["k"] else ""
-            st["items"] = [[ks[i - 1], val] for i, val in st["items"]]
+            st["v"] = st["v"].translate(tr)
+            st["items"] = [[ks[i - 1], val.translate(tr)] for i, val in st["items"]]
+    for v in foreign:
+        v["items"] = [[k.translate(tr), val.translate(tr)] for k, val in v["items"]]
     vecs = ops + foreign
     for i, v in enumerate(vecs):
         v["vec"] = i
